@@ -55,6 +55,8 @@ func (o Op) String() string {
 		return fmt.Sprintf("%s(%d)", o.K, o.Key)
 	case "advance":
 		return fmt.Sprintf("advance(%dms)", o.N)
+	case "advance+sweep":
+		return fmt.Sprintf("advance(%dms)+sweep", o.N)
 	case "updmax":
 		return fmt.Sprintf("UpdateMaxCost(%d)", o.N)
 	case "iterstop":
